@@ -454,7 +454,7 @@ func checkC06(P *Program, r *Result, tier string) {
 	r.Explanation = "Encoder/decoder conformance with the TTHeader frame layout: META (Encode stores BE32(magic+flags)@4, BE32(seq)@8, BE16(size/4)@12 of the 14-byte block and returns bytes 0..4 for the total length; Decode reads the same lanes), " +
 		"LIMIT (E1: the value written to the 16-bit size field is size/4 with 0 ≤ size ≤ 65536 proved at that point; no truncation), PAD (the padding expression makes written size + padding ≡ 0 mod 4 for every residue, and every padding byte is stored as 0), " +
 		"COUNT (on every success path of writeKVInfo the returned size grows by exactly the bytes emitted through WriteByte/WriteUint16/WriteString2BLen/Malloc), " +
-		"SECTIONS (the info ids the encoder emits are cases of the decoder; per section the primitive write sequence pairs with the read sequence; the ACL token uses the same key constant on both sides), " +
+		"NUM-HEADERS (the pair count written before a key/value loop equals the number of pairs the loop emits), SECTIONS (the info ids the encoder emits are cases of the decoder; per section the primitive write sequence pairs with the read sequence; the ACL token uses the same key constant on both sides), " +
 		"plus the decode-side rules of C10 that the round trip relies on (size arithmetic without wrap, HeaderLen/PayloadLen formulas, complete sections, copied strings)."
 	enc := P.Func(relTT, "Encode")
 	wkv := ttWriteKV(P)
@@ -689,6 +689,7 @@ func checkC06(P *Program, r *Result, tier string) {
 	}
 	countRule(P, r, run, wkv)
 	sectionsRule(P, r, wkv)
+	numHeadersRule(P, r, wkv)
 	// decode side
 	decode, dscope := ttDecodeScope(P, r)
 	if decode != nil {
@@ -1317,4 +1318,158 @@ func isSectionReader(f *ssa.Function) bool {
 	_, isPtr := f.Params[0].Type().Underlying().(*types.Pointer)
 	_, isMap := f.Params[2].Type().Underlying().(*types.Map)
 	return isPtr && isByteSlice(f.Params[1].Type()) && isMap
+}
+
+// numHeadersRule: the pair count written in front of a key/value section equals
+// the number of pairs the following loop emits: len(map), minus one exactly
+// when the one key the loop leaves out is present in the map.
+func numHeadersRule(P *Program, r *Result, wkv *ssa.Function) {
+	n := 0
+	for _, b := range wkv.Blocks {
+		for _, in := range b.Instrs {
+			rg, ok := in.(*ssa.Range)
+			if !ok {
+				continue
+			}
+			if _, isMap := rg.X.Type().Underlying().(*types.Map); !isMap {
+				continue
+			}
+			n++
+			// the count: last 16-bit write that dominates the loop
+			var cntCall *ssa.Call
+			var cntVal ssa.Value
+			for _, c := range callsIn(wkv) {
+				cc, isCall := c.(*ssa.Call)
+				if !isCall || !instrDominates(cc, rg) {
+					continue
+				}
+				if v := uint16Written(cc, 0); v != nil {
+					if cntCall == nil || instrDominates(cntCall, cc) {
+						cntCall, cntVal = cc, v
+					}
+				}
+			}
+			if cntCall == nil {
+				r.add("NUM-HEADERS", shortName(wkv), "loop", "a pair count is written before the pairs", P.pos(instrPos(rg)), false, "no 16-bit count write dominates the loop")
+				continue
+			}
+			// keys the loop leaves out: `if key == K { continue }`
+			var skipped []string
+			var next *ssa.Next
+			for _, ref := range *rg.Referrers() {
+				if nx, ok := ref.(*ssa.Next); ok {
+					next = nx
+				}
+			}
+			if next != nil {
+				for _, ref := range *next.Referrers() {
+					ex, ok := ref.(*ssa.Extract)
+					if !ok || ex.Index != 1 || ex.Referrers() == nil {
+						continue
+					}
+					for _, r2 := range *ex.Referrers() {
+						if bo, ok := r2.(*ssa.BinOp); ok && bo.Op == token.EQL {
+							if k, ok := bo.Y.(*ssa.Const); ok && k.Value != nil && k.Value.Kind() == constant.String {
+								skipped = append(skipped, constant.StringVal(k.Value))
+							}
+						}
+					}
+				}
+			}
+			isLenOf := func(v ssa.Value) bool {
+				l := builtinCall(stripConv(v), "len")
+				return l != nil && l.Common().Args[0] == rg.X
+			}
+			cnt := stripConv(cntVal)
+			ok2, detail := false, ""
+			switch {
+			case len(skipped) == 0:
+				ok2 = isLenOf(cnt)
+				if !ok2 {
+					detail = "the count is not len(map) although every pair is written"
+				}
+			case len(skipped) == 1:
+				// cnt = φ(len(m) − 1 on the path where K is present, len(m) otherwise)
+				detail = "the count is not len(map) reduced by one exactly when the left-out key is present"
+				if ph, isPhi := cnt.(*ssa.Phi); isPhi && len(ph.Edges) == 2 {
+					okMinus, okPlain := false, false
+					for i, e := range ph.Edges {
+						pred := ph.Block().Preds[i]
+						present, absent := false, false
+						conds := blockConds(pred, nil, 0)
+						if iff, isIf := pred.Instrs[len(pred.Instrs)-1].(*ssa.If); isIf && pred.Succs[0] != pred.Succs[1] {
+							conds = append(conds, condImplies(iff.Cond, pred.Succs[0] == ph.Block(), 0)...)
+						}
+						for _, dc := range conds {
+							ex, isEx := dc.Cond.(*ssa.Extract)
+							if !isEx || ex.Index != 1 {
+								continue
+							}
+							lk, isLk := ex.Tuple.(*ssa.Lookup)
+							if !isLk || !lk.CommaOk || lk.X != rg.X {
+								continue
+							}
+							if k, isC := lk.Index.(*ssa.Const); !isC || k.Value == nil || k.Value.Kind() != constant.String || constant.StringVal(k.Value) != skipped[0] {
+								continue
+							}
+							if dc.Truth {
+								present = true
+							} else {
+								absent = true
+							}
+						}
+						if bo, isBo := e.(*ssa.BinOp); isBo && present {
+							k, isC := constInt(bo.Y)
+							if (bo.Op == token.SUB && isC && k == 1 || bo.Op == token.ADD && isC && k == -1) && isLenOf(bo.X) {
+								okMinus = true
+							}
+						}
+						if isLenOf(e) && absent {
+							okPlain = true
+						}
+					}
+					if okMinus && okPlain {
+						ok2, detail = true, ""
+					}
+				}
+			default:
+				detail = "the loop leaves out more than one key"
+			}
+			r.add("NUM-HEADERS", shortName(wkv), "loop", "the pair count written before the loop equals the number of pairs the loop emits", P.pos(instrPos(cntCall)), ok2, detail)
+		}
+	}
+	if n < 2 {
+		r.fatal("expected two key/value loops in the header writer, found %d", n)
+	}
+}
+
+// uint16Written: the value call c hands to the 16-bit writer, directly or
+// through a helper that passes one of its own parameters on.
+func uint16Written(c *ssa.Call, depth int) ssa.Value {
+	cal := c.Common().StaticCallee()
+	if cal == nil || depth > 2 {
+		return nil
+	}
+	if cal.Name() == "WriteUint16" && inRepo(cal) {
+		return c.Common().Args[0]
+	}
+	if !inRepo(cal) || cal.Blocks == nil {
+		return nil
+	}
+	for _, c2 := range callsIn(cal) {
+		cc2, ok := c2.(*ssa.Call)
+		if !ok {
+			continue
+		}
+		if v := uint16Written(cc2, depth+1); v != nil {
+			if p, ok := stripConv(v).(*ssa.Parameter); ok {
+				for i, cp := range cal.Params {
+					if cp == p && i < len(c.Common().Args) {
+						return c.Common().Args[i]
+					}
+				}
+			}
+		}
+	}
+	return nil
 }
